@@ -22,7 +22,8 @@ MANIFEST = {
             'manager step; every outgoing attempt is checked against an independent back-off model (min(10 s x 2^k, 30 min), '
             'give-up beyond the configured failures); a detected self-connection is dropped and never retried; announcements '
             'never change an existing entry. Every peer-file write is re-executed with a process crash at every durable '
-            'boundary (file = complete old or new list, <= 100 entries, most recent first).',
+            'boundary (file = complete old or new list, <= 100 entries, most recent first).'
+            " The node's own address appears in its peer book / peer exchange (must not be attempted again once detected), some hosts never answer (attempt ends by timeout), one address may be listed under two keys.",
     'note': 'Trusted: RefBackoff model in this file, SimFS crash model, simulated network; greetings are observed at the '
             'node\'s greeting handler (an observation wrapper installed by the harness at run time, not a repo hook).',
 }
